@@ -496,7 +496,7 @@ let run_cmd toks =
         if cmd = "clone" then
           clone_cmd_model { e_flags = { c_force_create = (flag = "force" || flag = "verify-force"); c_seed_output = (flag = "seed-output");
                                         c_verify_output = (flag = "verify" || flag = "verify-force") };
-                            e_archive = (if ak = "invalid" then AInvalid else AValid);
+                            e_archive = (if ak = "invalid" || ak = "hc-flip2" || ak = "hc-swap" then AInvalid else AValid);
                             e_pin = (match ak with "mismatch" | "prefix-pin" | "prefix-pin-63" | "empty-pin" -> PinMismatch | "match-pin" -> PinMatch | _ -> NoPin);
                             e_out = out; e_src = src10 }
         else compress_cmd_model { z_flags = { z_force_create = (flag = "force") }; z_out = out; z_archive = src10 } in
